@@ -335,7 +335,17 @@ impl MasterPlaylistBuilder<'_> {
     }
 
     fn validate_variants(&self, variant_streams: &[VariantStream<'_>]) -> crate::Result<()> {
-        let mut closed_captions_none = false;
+        // `CLOSED-CAPTIONS=NONE` on one variant excludes a caption group on any
+        // other variant, no matter which of the two comes first:
+        let mut closed_captions_none = variant_streams.iter().any(|variant| {
+            matches!(
+                variant,
+                VariantStream::ExtXStreamInf {
+                    closed_captions: Some(ClosedCaptions::None),
+                    ..
+                }
+            )
+        });
 
         for variant in variant_streams {
             match &variant {
